@@ -205,6 +205,7 @@ static void ob_multi_channel(H<T>& h)
     f.h = &h; f.log = &log; f.tab = &tab; f.f_kinds = h.get("fk", 2);
     f.may_ask_weight = h.get("ask", 0) != 0;
     f.dist_kinds = h.get("dist", 0);
+    f.projector_optional = h.get("popt", 0) != 0;
     sym::stub_channel_map<T> m;
     m.h = &h; m.log = &log; m.tab = &tab; m.coord_calls = &cc; m.dens_calls = &dc;
     m.jac_kinds = h.get("jk", 1);
@@ -251,7 +252,9 @@ static void ob_multi_channel(H<T>& h)
         std::string s;
         protocol = protocol && e < log.events.size() && log.events[e++] == "map_coordinates";
         protocol = protocol && e < log.events.size() && log.events[e++] == "integrand";
-        bool densities_expected = c.asked_weight || c.f_kind != sym::V_ZERO;
+        // the weight is needed if the value is non-zero, or if the integrand asked for it - directly or by handing a
+        // value to the projector (which multiplies it with the weight)
+        bool densities_expected = c.asked_weight || c.has_dist || c.f_kind != sym::V_ZERO;
         // densities may be requested while the integrand runs (it asked for the weight) and/or
         // right after it; a weight that evaluates to zero is not cached, so the request can repeat
         std::size_t ndens = 0;
@@ -305,6 +308,10 @@ static void ob_multi_channel(H<T>& h)
             for (std::size_t j = 0; j != mc.coords_after.size() && j < md.coords_after.size(); ++j)
                 untouched = untouched && h.same(md.coords_after[j], mc.coords_after[j]);
             for (std::size_t j = 0; j != d && j < md.rn.size(); ++j) untouched = untouched && h.same(md.rn[j], mc.rn[j]);
+            // the density buffer still holds what the map left in it for the enabled channels
+            untouched = untouched && h.truth(md.dens_seen.size() == mc.dens_seen.size());
+            for (auto const j : enabled)
+                if (j < md.dens_seen.size() && j < mc.dens_seen.size()) untouched = untouched && h.same(md.dens_seen[j], mc.dens_seen[j]);
             h.check("C17|multi_channel.densities_asked_with_same_channel_numbers_and_buffers_untouched",
                 h.truth(same_bufs) && untouched);
             T total = T();
